@@ -206,9 +206,12 @@ def gen_cases(ctx):
     exhaustive_n = 4 if quick else 5
     for n in range(0, exhaustive_n + 1):
         for edges in all_dags(n):
-            cases.append(("exh%d" % n, full_case(mapping_of(n, edges), rng)))
+            c = full_case(mapping_of(n, edges), rng)
+            if n >= 5:      # thorough only: 29281 graphs; a seeded dozen of the 25 pairs each
+                c["pairs"] = rng.sample(c["pairs"][:-2], 12) + c["pairs"][-2:]
+            cases.append(("exh%d" % n, c))
     # seeded sample of the next size(s), in shuffled dict order
-    for n, cnt in ([(5, 150)] if quick else [(6, 2000)]):
+    for n, cnt in ([(5, 150)] if quick else [(6, 1000)]):
         ds = all_dags(n) if n <= 5 else None
         for _ in range(cnt):
             if ds is not None:
@@ -229,7 +232,7 @@ def gen_cases(ctx):
             cases.append(("shape6", c))
     # shuffled dict orders of small DAGs
     small = all_dags(4)
-    for _ in range(60 if quick else 1500):
+    for _ in range(60 if quick else 800):
         cases.append(("shuf4", full_case(mapping_of(4, rng.choice(small), rng), rng)))
     # random DAGs up to 40 nodes
     for _ in range(40 if quick else 900):
@@ -336,6 +339,16 @@ def run(ctx):
             rm.append({"map": m, "remove": k})
     rm = rm[:: max(1, len(rm) // (100 if ctx.tier == "quick" else 2500))]
     payload["remove"] = rm
+    # JobGraph with probability-0 jobs (weight 0 in the path search) and slo's
+    jgs = []
+    for _ in range(60 if ctx.tier == "quick" else 1200):
+        n = ctx.rng.randint(1, 7)
+        m = mapping_of(n, random_dag(ctx.rng, n, ctx.rng.choice([0.3, 0.5])), ctx.rng)
+        ns = node_order(m)
+        jgs.append({"map": m, "w": [[k, ctx.rng.randint(1, 4)] for k in ns if ctx.rng.random() < 0.8],
+                    "p0": [k for k in ns if ctx.rng.random() < 0.3],
+                    "slo": [[k, ctx.rng.randint(1, 9)] for k in ns if ctx.rng.random() < 0.3]})
+    payload["jobgraphs"] = jgs
     impl = core.run_impl("graph.py", payload, timeout=1500)
     obs = impl["obs"][:len(cases)]
     replay_corpus(ctx, corpus, impl["obs"][len(cases):])
@@ -386,6 +399,24 @@ def run(ctx):
                                              "model": mv, "what": "Graph.remove followed by the traversals disagrees with the model"})
     except core.ModelEvalError as e:
         ctx.broken.append({"kind": "correspondence", "name": "S-graph-remove", "detail": str(e)[-600:]})
+
+    try:
+        jcases = []
+        for c, r in zip(jgs, impl["jobgraphs"]):
+            if "job_error" in r:
+                ctx.violation("jobgraph_error", {"stream": "S-graph-jobgraph", "case": c, "implementation": r})
+                break
+            jcases.append(("(%s, %s, %s, %s)" % (g_map(c["map"]), glist(["(%s, %s)" % (gz(k), gz(x)) for k, x in c["w"]]),
+                                                 g_nodes(c["p0"]), glist(["(%s, %s)" % (gz(k), gz(x)) for k, x in c["slo"]])),
+                           [r["job_cp"], r["job_ct"], r["job_path"]], c))
+        mism = ctx.model_stream("S-graph-jobgraph", HEADER, "adj * list (node * Z) * list node * list (node * Z)",
+                                "g_observe_jobgraph", jcases, shard=400)
+        for idx, mv in mism[:2]:
+            ctx.violation("jobgraph%d" % idx, {"stream": "S-graph-jobgraph", "case": jcases[idx][2], "implementation": jcases[idx][1],
+                                               "model": mv, "layout": "[critical_path_runtime, completion_time, longest path]",
+                                               "what": "JobGraph critical path with probability-0 jobs / slo's disagrees with the model"})
+    except core.ModelEvalError as e:
+        ctx.broken.append({"kind": "correspondence", "name": "S-graph-jobgraph", "detail": str(e)[-600:]})
 
     # ---------------- wrappers (compared with the model's values computed above by the implementation-independent monitor
     # and with the Graph routines they wrap)
